@@ -61,8 +61,8 @@ def appends_of(p, optype):
     return sorted({c.fn.id for c, g in operation_instantiations(p) if g == OP_PREFIX + optype})
 
 
-def callers_of(p, fid):
-    return sorted(p.callers().get(fid, ()))
+def callers_of(p, fid, allowed=None):
+    return sorted(p.effective_callers(fid, allowed))
 
 
 def sites(p, fid, within=None):
@@ -70,6 +70,8 @@ def sites(p, fid, within=None):
     out = []
     fns = [p.fns[within]] if within else p.fns.values()
     for f in fns:
+        if p.inline_mode and not within and p.transparent(f.root or f.id):
+            continue        # its call sites are seen, inlined, in the views of the functions that call it
         for c in f.calls():
             if c.callee == fid or fid in p.targets(c):
                 out.append(c)
